@@ -107,6 +107,17 @@ def scalar_none_bool_str_roundtrip(v: Union[None, bool, str]) -> bool:
 ''', "None / bool / short string values survive stringify -> numify unchanged (value and type)",
          exclusions={"F-C14-1": 'isinstance(v, str) and v in ("", "inf", "-inf")'}),
 
+    Cond("scalar_keyword_like_strings_roundtrip", '''
+def scalar_keyword_like_strings_roundtrip(i: int) -> bool:
+    """
+    pre: 0 <= i < 16
+    post: _
+    """
+    words = ["Inf", "INF", "-Inf", "iNf", "inf ", " inf", "+inf", "nan", "NaN", "None", "none", "true", "True", "false", "1e5", "0x10"]
+    return _rt(words[i])
+''', "strings that merely look like the spellings of special values (other capitalisation, blanks, other keywords) survive "
+     "stringify -> numify as the same strings"),
+
     Cond("scalar_int_roundtrip", '''
 def scalar_int_roundtrip(v: int) -> bool:
     """
@@ -450,7 +461,7 @@ class FileRoundTrip(Scenario):
             ui["pgroup"] = {"main": True, "label": "PG", "parent": "object2", "association": "Vertex", "dataType": "Float",
                             "dataGroupType": "3D vector", "value": str(pg.uid)}
             # a parameter that stays enabled through a dependency although it is not required (the switch is off)
-            ui["flag"] = {"main": True, "label": "Flag", "value": False}
+            ui["flag"] = {"main": True, "label": "Flag", "value": False, "optional": False, "enabled": True}     # explicit members
             ui["dep"] = {"main": True, "label": "Dep", "value": 1.5, "dependency": "flag", "dependencyType": "enabled", "enabled": True}
             ui["object"] = templates.object_parameter(value=str(pts.uid), mesh_type=[pts.entity_type.uid])
             ui["data"] = templates.data_parameter(data_group_type=None, parent="object", association="Vertex", data_type="Float",
@@ -475,7 +486,11 @@ class FileRoundTrip(Scenario):
             if reassign:            # later assignments through the public setter must reach the file as well
                 a.set_data_value("flt", 7.25)
                 a.set_data_value("txt", "changed")
-                a.set_data_value("dep", None)
+                try:
+                    a.set_data_value("dep", None)
+                except Exception as e:  # noqa: BLE001
+                    cx.prove(False, f"None is accepted for a parameter whose dependency is switched off ({type(e).__name__})", "file round trip")
+                    return "refused"
             da = dict(a.data)
             a_enabled = {k: v.get("enabled", True) for k, v in a.ui_json.items() if isinstance(v, dict)}
             demoted = InputFile.demote(dict(da))
